@@ -421,6 +421,68 @@ def eval_adaptive(case):
     return out
 
 
+GRIDS = ["default", "shift", "noalign"]
+
+
+def mk_adaptive_grid(w, data, grid):
+    from physt import h1
+
+    kw = {}
+    if grid == "shift":
+        kw["bin_shift"] = 0.3 * w
+    elif grid == "noalign":
+        kw["align"] = False
+    return h1(np.array(data, dtype=float) if len(data) else None, "fixed_width", bin_width=w, adaptive=True, **kw)
+
+
+def eval_adaptive_grids(case):
+    """Adaptive operands whose grids are anchored differently (bin_shift, align=False), one of them possibly still empty:
+    the sum is either refused (no common grid; both operands untouched) or it is the histogram of the combined data over
+    the bins it reports. (seeded C05-adapt-empty-side-before-shift-check)"""
+    from physt import h1
+
+    w, da, db, ga, gb = case["w"], case["a"], case["b"], case["ga"], case["gb"]
+    ra, rb = call(mk_adaptive_grid, w, da, ga), call(mk_adaptive_grid, w, db, gb)
+    if not (ra.ok and rb.ok):
+        return [], "operand-refused"
+    a, b = ra.value, rb.value
+    sa, sb_ = snap(a), snap(b)
+    sig = f"adaptive_grids|{ga}+{gb}|na={min(len(da), 1)}|nb={min(len(db), 1)}"
+    out = []
+    label = []
+    for nm, f in (("add", lambda: a + b), ("radd", lambda: b + a), ("iadd", lambda: _iadd(a.copy(), b))):
+        res = call(f)
+        if snap(a) != sa or snap(b) != sb_:
+            out.append(V("operands_untouched", f"operand_modified|{sig}|{nm}", case, "unchanged", diff(sa, snap(a)) or diff(sb_, snap(b))))
+            break
+        if not res.ok:
+            label.append("refused")
+            continue
+        label.append("sum")
+        c = res.value
+        data = list(da) + list(db)
+        if fl(c.total) != len(data) or fl(c.underflow) != 0 or fl(c.overflow) != 0:
+            out.append(V("nothing_lost", f"lost|{sig}|{nm}", case, "total == entered, no under/overflow", [fl(c.total), fl(c.underflow), fl(c.overflow)]))
+            continue
+        if not data:
+            continue
+        edges = np.asarray(c.numpy_bins, dtype=float)
+        want = [0] * (len(edges) - 1)
+        for v in data:
+            k = int(np.searchsorted(edges, v, side="right")) - 1
+            if 0 <= k < len(want):
+                want[k] += 1
+        got = [fl(x) for x in c.frequencies.tolist()]
+        if got != want:
+            out.append(V("adaptive_union", f"adaptive_vs_combined_data|{sig}|{nm}", case, {"edges": edges.tolist(), "frequencies": want}, got))
+    return out, "+".join(label)
+
+
+def _iadd(x, y):
+    x += y
+    return x
+
+
 def eval_adaptive2d(case):
     from physt import h2
 
@@ -621,6 +683,11 @@ def units(tier, seed):
     for w, offset in ((1.0, 1.0e6), (1.0, -3.0e7), (1.0e-9, 0.0), (0.25, 1.7e9)):
         us.append({"kind": "adaptive", "w": w, "wa": None, "wb": None, "offset": offset})
     us.append({"kind": "adaptive_missed"})
+    for w in (1.0, 0.3):
+        for ga in GRIDS:
+            for gb in GRIDS:
+                if (ga, gb) != ("default", "default"):
+                    us.append({"kind": "adaptive_grids", "w": w, "ga": ga, "gb": gb})
     us.append({"kind": "adaptive2d", "w": [1.0, 0.3], "n": 2 if thorough else 1})
     us.append({"kind": "adaptive2d", "w": [1.0, 0.3], "n": 1, "weights": [0.1, 0.3, 0.7]})
     nd = 6 if thorough else 4
@@ -701,6 +768,19 @@ def run_unit(unit, ctx):
             p.ev(bool(da) and bool(db) and (min(da) != min(db) or max(da) != max(db)))
             p.extend(vs)
         p.sample(case)
+    elif kind == "adaptive_grids":
+        w = unit["w"]
+        ds = list(datasets(adaptive_values(w), 2))
+        for da, db in itertools.product(ds, repeat=2):
+            case = {"w": w, "a": list(da), "b": list(db), "ga": unit["ga"], "gb": unit["gb"]}
+            vs, label = eval_adaptive_grids(case)
+            p.states += 1
+            p.transitions += 3
+            p.traces += 1
+            p.ev(True)
+            p.outcome(f"adaptive_grids:{label}")
+            p.extend(vs)
+        p.sample(case)
     elif kind == "adaptive_missed":
         for other in ([6.5], [0.5], [-2.5, 7.5], [2.5, 3.5]):
             case = {"adaptive_missed": True, "side": "left_has_overflow", "other": other}
@@ -749,6 +829,8 @@ def run_unit(unit, ctx):
 def replay(case):
     if case.get("adaptive_missed"):
         return eval_adaptive_missed(case)
+    if "ga" in case:
+        return eval_adaptive_grids(case)[0]
     if "w" in case and isinstance(case["w"], list):
         return eval_adaptive2d(case)
     if "name" in case:
